@@ -37,6 +37,7 @@ import (
 	"encoding/base64"
 	"fmt"
 	"io"
+	"net/url"
 	"os"
 	"strings"
 
@@ -149,6 +150,16 @@ func ReadSource(filename string, src interface{}) ([]byte, error) {
 	return os.ReadFile(filename) //nolint:gosec
 }
 
+// parseSourceMap parses a source map for the file of the given name. The name doubles as the URL
+// of the map (relative sources are resolved against it when it is absolute); a name that is not
+// a URL at all ("my file:1.js") is no reason to refuse the map.
+func parseSourceMap(filename string, b []byte) (*sourcemap.Consumer, error) {
+	if _, err := url.Parse(filename); err != nil {
+		filename = ""
+	}
+	return sourcemap.Parse(filename, b)
+}
+
 // ReadSourceMap reads the source map from src if not nil, otherwise is a noop.
 func ReadSourceMap(filename string, src interface{}) (*sourcemap.Consumer, error) {
 	if src == nil {
@@ -157,17 +168,17 @@ func ReadSourceMap(filename string, src interface{}) (*sourcemap.Consumer, error
 
 	switch src := src.(type) {
 	case string:
-		return sourcemap.Parse(filename, []byte(src))
+		return parseSourceMap(filename, []byte(src))
 	case []byte:
-		return sourcemap.Parse(filename, src)
+		return parseSourceMap(filename, src)
 	case *bytes.Buffer:
-		return sourcemap.Parse(filename, src.Bytes())
+		return parseSourceMap(filename, src.Bytes())
 	case io.Reader:
 		var bfr bytes.Buffer
 		if _, err := io.Copy(&bfr, src); err != nil {
 			return nil, err
 		}
-		return sourcemap.Parse(filename, bfr.Bytes())
+		return parseSourceMap(filename, bfr.Bytes())
 	case *sourcemap.Consumer:
 		return src, nil
 	default:
